@@ -195,6 +195,19 @@ def o_sign_verify(case):
     flipped = net.keys.private(secret_exponent=d, is_compressed=not comp).address()
     must_fail("msg:verifies-for-other-address", "verify(address of the same key with compressed=%r, sig, msg)" % (not comp),
               lambda: net.msg.verify(flipped, sig, msg))
+    # the network's other address kinds: script hash of the key's own hash, and - where the network has a Bech32 prefix -
+    # the P2WPKH address of the key, a P2WSH and a P2TR address (the last two carry a 32-byte payload, no key hash at all)
+    h20 = key.hash160()
+    others = [("p2sh", net.address.for_p2sh(h20))]
+    if getattr(net.parse, "_bech32_hrp", None):
+        others += [("p2wpkh", net.address.for_p2pkh_wit(h20)), ("p2wsh", net.address.for_p2sh_wit(h20 + h20[:12])),
+                   ("p2tr", net.address.for_p2tr(h20[:12] + h20))]
+    for kind, a2 in others:
+        if kind in ("p2wpkh", "p2sh") or not isinstance(a2, str) or "?" in a2:
+            # (a P2WPKH or P2SH address built over the very same 20 bytes: pycoin compares the 20-byte payloads whatever the
+            # address kind, Core insists on P2PKH; the property does not say which way that goes - not judged)
+            continue
+        must_fail("msg:verifies-for-other-address", "verify(%s address %s, sig, msg)" % (kind, a2), lambda: net.msg.verify(a2, sig, msg))
     # another network's magic
     code2 = other_netcode(code, case["net2"])
     net2 = NET(code2)
